@@ -95,6 +95,11 @@ def job(args):
             return res
         res['paths'] = len(paths)
         res['outcomes'] = sorted({o for _, o in paths})
+        if spec[2] and 'ret' not in res['outcomes'] and spec[3] != 'must':
+            # postconditions are stated but no explored path returns: the clauses would hold vacuously
+            res['obligations'].append({'name': f'{key}/reach.returns', 'path': '*', 'kind': 'reach', 'status': 'unknown', 'solver': None,
+                                       'time': 0, 'note': 'no explored path returns although postconditions are stated (vacuity guard)',
+                                       'line': 0, 'formula': None})
         res['inlined'] = sorted(w.inlined_log)
         timeout = 10000 if tier == 'quick' else 60000
         seen = {}
